@@ -101,12 +101,13 @@ def run(ctx):
     import os
     kf = []
     nk, bk = markers.check_markers(os.path.join(common.VERIF, "corpus", "c19kf", "nested"), known=kf)
-    ctx.obligation("corpus/c19kf/nested: the other %d marked uses behave as marked (un-nested checks protect, no check reports)" % (nk - 2), nk > 2 and not bk)
+    nkn = open(os.path.join(common.VERIF, "corpus", "c19kf", "nested", "n.go")).read().count("//KNOWN:")
+    ctx.obligation("corpus/c19kf/nested: the other %d marked uses behave as marked (un-nested checks protect, no check reports)" % (nk - nkn), nk > nkn and not bk)
     for b in bk[:2]:
         ctx.violation("corpus-c19kf", "C19 fails on the real tool: %s\nreplay: bin/harness analyze -dir corpus/c19kf/nested\n" % b)
     if kf:
         if any(k["id"] == "F104" for k in ctx.known_for()):
-            ctx.known_finding("F104", "`(p == nil || c) && p.f == 0` / `(p != nil && c) || p.f == 0` in a value expression: the inner check's conclusion is attributed to the right operand on both outcomes, the dereference is not reported: %s (corpus/c19kf/nested)" % ", ".join(x[1] for x in kf))
+            ctx.known_finding("F104", "`(p == nil || c) && p.f == 0` / `(p != nil && c) || p.f == 0` (also with a negated compound left operand) in a value expression: the inner check's conclusion is attributed to the right operand on both outcomes, the dereference is not reported: %s (corpus/c19kf/nested)" % ", ".join(x[1] for x in kf))
         else:
             ctx.violation("nested", "C19 fails on the real tool: a nil check nested in the left operand of a short-circuit value expression is attributed to the wrong outcome: %s unreported\nreplay: bin/harness analyze -dir corpus/c19kf/nested\n" % ", ".join(x[1] for x in kf))
 
